@@ -595,6 +595,7 @@ func TestCheck(t *testing.T) {
 	r.SetRule("seed-determined DNS universes over 12 short names + 2 attacker names (A/AAAA 0..3, CNAMEs incl. loops, HTTPS alias chains of 0..8 hops ending in service records / nothing / NXDOMAIN / a loop / a self alias / alias to '.', " +
 		"service records with priorities, '.'/named targets, ports, alpn, ech, hints; forced rcodes 1..5 per (name, qtype); service targets whose A lookup succeeds while their AAAA lookup alone fails; poisoned answers owned by unrelated names before/after the genuine ones; NXDOMAIN or no-data for unknown names; name compression on/off) " +
 		"x name forms host, host:port, scheme://host[:port]/path, ports {0,80,443,8443,65535}, schemes {https,http,foo,wss,mixed case, 62/63/64/254/255/300 letters}, hosts with 63/64-byte labels and totals 253/254/255/256/300. " +
+		"Every fourth case runs on a Resolver with a history: it resolved the same name in another universe, then the virtual clock jumped beyond every TTL and the universe was replaced. " +
 		"distinct = distinct (input class, form, port class, scheme class, alias hops, chain end kind, rcodes served, poisoned) classes that reached Resolve")
 	r.Assume("internal/dohfake: responses built with x/net dnsmessage.Builder and an own RFC 9460 RDATA encoder, queries judged by a literal label walk and dnsmessage.Parser",
 		"the universe (Zone.Lookup) answers like a recursive resolver: CNAME RRs first, then the RRSet at the end of the chain",
@@ -615,11 +616,24 @@ func TestCheck(t *testing.T) {
 		}
 		servers <- srv
 	}
+	// Every fourth case uses a Resolver with a history: it has resolved the same name against ANOTHER universe, then
+	// the (virtual) clock moves far beyond every TTL and the universe is replaced. Nothing of the old one may show.
+	var clockOffset atomic.Int64
+	clockBase := time.Date(2030, 1, 1, 0, 0, 0, 0, time.UTC)
+	restoreClock := ech.VerifSetClock(func() time.Time { return clockBase.Add(time.Duration(clockOffset.Load()) * time.Second) })
+	defer restoreClock()
 	n := r.N(3000, 150000)
 	r.Parallel("resolve", n, func(i int, rng *mrand.Rand) {
 		in := genInput(rng, i)
+		var z0 *dohfake.Zone
+		if i%4 == 3 && in.Class == "normal" {
+			z0 = genZone(rng, in)
+		}
 		z := genZone(rng, in)
 		c := map[string]any{"input": in, "zone": dumpZone(z)}
+		if z0 != nil {
+			c["earlier_zone"] = dumpZone(z0)
+		}
 		if i < 2 || i == len(specials) {
 			r.Sample(c)
 		}
@@ -631,9 +645,21 @@ func TestCheck(t *testing.T) {
 			r.Inconclusive("fixture: NewResolver(%q): %v", srv.URL, err)
 			return
 		}
-		resolver.SetCacheSize(0)
 		ctx, cancel := context.WithTimeout(context.Background(), 2*time.Minute) // watchdog only
 		defer cancel()
+		if z0 == nil {
+			resolver.SetCacheSize(0)
+		} else {
+			srv.Reset(z0)
+			var warmErr error
+			if r.Guard("resolve", i, "resolve:earlier-universe", c, func() { _, warmErr = resolver.Resolve(ctx, in.Arg) }) {
+				return
+			}
+			c["earlier_result_error"] = fmt.Sprint(warmErr)
+			clockOffset.Add(1_000_000) // all TTLs are below 1000 s
+			srv.Reset(z)
+			r.Count("cases_with_resolver_history", 1)
+		}
 		// Q2 is a count, not a deadline: the 65th query cancels the call so that an unbounded chase ends.
 		var overrun atomic.Bool
 		srv.OnQuery(func(q dohfake.Query) {
@@ -982,6 +1008,7 @@ func TestCheck(t *testing.T) {
 		}
 	})
 	r.Floor("queries", int64(n)*2)
+	r.Floor("cases_with_resolver_history", int64(n)/6)
 	r.Floor("alias_hops_followed", int64(n)/10)
 	r.Floor("loops_generated", int64(n)/100)
 	r.Floor("cname_cases", int64(n)/30)
